@@ -278,6 +278,12 @@ func TestC10(t *testing.T) {
 
 	cs := c10Case.On(col, "exhaustive: case with subject and first when value ranging over all ordered pairs of the plain universe (other when values fixed), two clauses that both match (the first must win), with and without else, values bound to variables and written as literals (incl. quoted strings that contain the words or / and and commas). Oracle: first when clause listing a value equal (reference ==) to the subject, otherwise else, otherwise nothing; pairs whose equality the statement leaves open are counted as unspecified. Distinct by construction", true)
 	for _, a := range pu {
+		// a case without any when clause: the else clause, if there is one
+		idx++
+		if env.Mine(idx) {
+			cs.Run(&c10CaseCase{Subj: a.Name, Else: true})
+			cs.Run(&c10CaseCase{Subj: a.Name})
+		}
 		for _, b := range pu {
 			idx++
 			if !env.Mine(idx) {
